@@ -651,6 +651,24 @@ def Prim.wf : Prim → Prop
   | .str w b => b.length < 2 ^ (8 * w.bytes)
   | .null => True
 
+/-- what the Rust types of `TLVValue` enforce by themselves: integers in the range of their width
+(`S8(i8)` …), float bit patterns of their size, `Utf*l(&str)` valid UTF-8 -/
+def Prim.typed : Prim → Prop
+  | .sint w i => -(2 ^ (8 * w.bytes - 1) : Nat) ≤ i ∧ i < (2 ^ (8 * w.bytes - 1) : Nat)
+  | .uint w n => n < 2 ^ (8 * w.bytes)
+  | .f32 b => b < 2 ^ 32
+  | .f64 b => b < 2 ^ 64
+  | .utf8 _ b => validUtf8 b = true
+  | _ => True
+
+/-- the one thing the types do **not** enforce: the length of a string fits the length field of the
+element type it is written with (`Str8l(&[u8])` can hold a 300-byte slice).  This is the check
+`TLVWrite::tlv` performs since the fix `C16-writer-length-truncation` (`uN::try_from(a.len())`). -/
+def Prim.lenFits : Prim → Bool
+  | .utf8 w b => decide (b.length < 2 ^ (8 * w.bytes))
+  | .str w b => decide (b.length < 2 ^ (8 * w.bytes))
+  | _ => true
+
 /-- `TLVWrite::u16/u32/u64`: the smallest width that holds the value -/
 def Prim.mkUint (n : Nat) : Prim :=
   if n ≤ 0xff then .uint .w1 n else if n ≤ 0xffff then .uint .w2 n
@@ -699,6 +717,48 @@ def encode : Value → Bytes
 def encodes : Values → Bytes
   | .nil => []
   | .cons v vs => encode v ++ encodes vs
+end
+
+/-- `TLVWrite::tlv(tag, value)` **after the fix**: a string whose length does not fit the length field
+of its element type is refused with `InvalidData` before anything is written; everything else is
+written as `header ++ payload`.  (Before the fix — and still in the infallible iterator writer
+`TLV::bytes_iter` / `TLVValueIter` — the length is cast with `as u8/u16/u32`: that is `encode`, whose
+`leBytes w.bytes b.length` truncates the same way.) -/
+def writeLeaf (t : Tag) (p : Prim) : Res Bytes :=
+  if p.lenFits then .ok (header t p.vt ++ p.payload) else .err .invalidData
+
+mutual
+/-- a whole tree through the fallible writer: `tlv` for the leaves, `start_*` … `end_container`
+around the children; the first refused leaf aborts (`?`) -/
+def write : Value → Res Bytes
+  | .leaf t p => writeLeaf t p
+  | .cont t k cs => do
+    let inner ← writes cs
+    pure (header t (.cont k) ++ (inner ++ [endByte]))
+def writes : Values → Res Bytes
+  | .nil => pure []
+  | .cons v vs => do
+    let a ← write v
+    let b ← writes vs
+    pure (a ++ b)
+end
+
+mutual
+def Value.typed : Value → Prop
+  | .leaf t p => t.wf ∧ p.typed
+  | .cont t _ cs => t.wf ∧ cs.typed
+def Values.typed : Values → Prop
+  | .nil => True
+  | .cons v vs => v.typed ∧ vs.typed
+end
+
+mutual
+def Value.lenFits : Value → Bool
+  | .leaf _ p => p.lenFits
+  | .cont _ _ cs => cs.lenFits
+def Values.lenFits : Values → Bool
+  | .nil => true
+  | .cons v vs => v.lenFits && vs.lenFits
 end
 
 mutual
@@ -818,6 +878,46 @@ def reencodeIter (bs : Bytes) : Res Bytes :=
       let inner ← tlvConcat (tlvElements seq)
       pure (tlvBytes (t, v) ++ inner ++ [endByte])
     | _ => pure (tlvBytes (t, v))
+
+/-! ## The remaining public accessors of `TLVElement` -/
+
+/-- `TLVElement::tlv`: `tag()` then `value()` -/
+def tlvOf (bs : Bytes) : Res (Tag × TVal) := do
+  let t ← tagOf bs
+  let v ← valueOf bs
+  pure (t, v)
+
+/-- `TLVElement::total_len`: the public wrapper of `container_len` -/
+def totalLen (bs : Bytes) : Res Nat := containerLen bs
+
+/-- `TLVElement::is_empty` (`non_empty` and `raw_data` are equally total functions of the slice) -/
+def isEmptyOf (bs : Bytes) : Bool := bs.isEmpty
+
+/-- the children loop of `TLVElement::fmt`: `for elem in container.iter() { elem.map_err(fmt::Error)?.fmt(..)? }` -/
+def fmtSeq (f : Bytes → Res Unit) : List (Res Bytes) → Res Unit
+  | [] => pure ()
+  | r :: rest => do
+    let e ← r
+    f e
+    fmtSeq f rest
+
+/-- control flow of `TLVElement::fmt` (the body of `Display` and `Debug`; the `core::fmt::Write` sink is
+assumed not to fail, every error of the reader becomes `fmt::Error`): `tag()`, `value()`, and for
+`value_type().is_container()` — start **or end** — `container()?` and the **recursive** formatting of
+every child, then `match value_type { Struct | Array | List => …, _ => unreachable!() }`.
+The Rust recursion has no depth cap; the model runs it on fuel (`.panic .fuel` = unbounded recursion). -/
+def fmtOf : Nat → Bytes → Res Unit
+  | 0, _ => .panic .fuel
+  | d + 1, bs => do
+    let _ ← tagOf bs
+    let v ← valueOf bs
+    if v.vt.isContainer then do
+      let seq ← containerOf bs
+      fmtSeq (fmtOf d) (elements seq)
+      match v.vt with
+      | .cont _ => pure ()
+      | _ => .panic .unreachable
+    else pure ()
 
 /-! ## Re-encoding a decoded element (`ToTLV for TLVElement`) -/
 
